@@ -52,6 +52,7 @@ def install_update_monitor():
             return
         probes.rec("ukf_update", target=self.target_id, n_obs=len(observations), true_y=np.array(self.true_y, dtype=float).copy(),
                    pred_y=np.array(self.mean_pred_y, dtype=float).copy(), angular=[bool(x) for x in self.is_angular],
+                   labels=[lab for o in observations for lab in o.measurement.labels],
                    innovation=np.array(self.innovation, dtype=float).copy(), est_x=np.array(self.est_x, dtype=float).copy(),
                    est_p=np.array(self.est_p, dtype=float).copy(), dims=[int(o.dim) for o in observations],
                    pred_x=np.array(self.pred_x, dtype=float).copy(), pred_p=np.array(self.pred_p, dtype=float).copy(),
@@ -75,6 +76,12 @@ def judge_updates(viol, cnt, res, cond=None):
             cnt["updates_with_2plus_stacked_observations"] = cnt.get("updates_with_2plus_stacked_observations", 0) + 1
         if len(set(r["dims"])) > 1:
             cnt["updates_mixing_optical_and_radar"] = cnt.get("updates_mixing_optical_and_radar", 0) + 1
+        # which rows are angles follows from what was measured (azimuth, elevation), not from what the filter remembers
+        own = [lab in ("azimuth_rad", "elevation_rad") for lab in r["labels"]]
+        if own != list(r["angular"]):
+            viol.append({"clause": "angular-flags-do-not-match-the-stack", "key": "flags",
+                         "detail": f"step {r['step']} target {r['target']}: stacked measurements {r['labels']} but the filter treats rows {[i for i, a in enumerate(r['angular']) if a]} as angles"})
+            r["angular"] = own
         for i, ang in enumerate(r["angular"]):
             if not ang:
                 continue
